@@ -318,8 +318,14 @@ CHECKS.update({
         'C09_entries_survive_signed / _unsigned prove that every entry written is read back as the element it names and every '
         'missing entry as missing (for unsigned types while the type has a spare value), C09_old_fill_refuted carries the '
         'witness of the defect repaired by 524840a; per run the fill stored in every saved table is compared with the model and '
-        'meshes stored as int8 / int16 / uint8 / uint16, some using every positive value of the type, are clipped and reopened.',
-        'Trusted: Coq kernel; models Clip.v / UMask.v / Topology.v / Fill.v.  PARTIAL: save / reopen and convention detection of the '
+        'meshes stored as int8 / int16 / uint8 / uint16, some using every positive value of the type, are clipped and reopened.  '
+        'Model GeomNames.v holds get_all_geometry_names of the three convention families, select_variables and drop_geometry: '
+        'C09_select_variables_spec (the subset = asked for + geometry + depth + time, dataset order, every geometry variable '
+        'survives, an unknown name is refused), C09_subset_has_the_same_geometry_variables (no bounds variable lost or gained), '
+        'C09_select_idempotent_drop_exact, C09_mesh_geometry_variables; per run the names, the variables of subsets (asked by name '
+        'or as arrays, unknown names included) and what drop_geometry leaves are compared with the model on datasets of every '
+        'convention with depth and time coordinates.',
+        'Trusted: Coq kernel; models Clip.v / UMask.v / Topology.v / Fill.v / GeomNames.v.  PARTIAL: save / reopen and convention detection of the '
         'result are established per run only; polygons are compared only where geometry is stored explicitly (bounds, nodes) '
         'as the property states.',
         'DESIGN.md section 4 C09'),
